@@ -748,6 +748,9 @@ func runFrame(fr *frame) {
 		}
 		p := recover()
 		if isFatal(p) {
+			if ee, ok := p.(engineErr); ok && !strings.Contains(ee.msg, " @@ ") {
+				p = engineErr{ee.msg + " @@ " + stackOf(fr)}
+			}
 			if re, ok := p.(runtime.Error); ok {
 				buf := make([]byte, 8192)
 				n := runtime.Stack(buf, false)
